@@ -24,6 +24,8 @@ import Martian.Invocation
 import Proofs.Invocation
 import Martian.InvocationStr
 import Proofs.InvocationStr
+import Martian.InvocationText
+import Proofs.InvocationText
 import Martian.JsonBytes
 import Proofs.JsonBytes
 import Proofs.JsonBytesFilter
@@ -102,9 +104,10 @@ back as the integer `0` from either printer — the sign of zero is gone. -/
 theorem negative_zero_sign_lost :
     encLit (.flt ⟨true, 0, 0⟩) = .int 0 ∧ textLit (.flt ⟨true, 0, 0⟩) = .int 0 := by decide
 
-/-- The text leg (`BuildCallSource`'s formatter, then the MRO parser) does not
-change the JSON a call marshals to — although the two printers use different
-rules for integer syntax (10^6 vs int64). -/
+/-- The tree function `reparse` (what the text leg returns: `text_leg_is_format_parse` below proves
+that it IS formatter ∘ lexer ∘ parser) does not change the JSON a call marshals to — although the
+two printers use different rules for integer syntax (10^6 vs int64).  On its own this is a
+statement about the tree function only. -/
 theorem format_parse_preserves_json (e : Exp) : encode (reparse e) = encode e :=
   encode_reparse e
 
@@ -128,9 +131,10 @@ theorem encode_convert_exact (t : TypeId) (j : J) (hi : jIntsOk j = true) :
   · rw [encode_fix, encode_ofJ j e0 h0]
   · intro hn; rw [encode_fix, encode_ofJ j e0 h0, hn]
 
-/-- The whole first direction on one argument: invocation JSON → `convertToExp`
-→ formatted MRO text → MRO parser → `MarshalJSON` gives the JSON value back
-(up to the normalisation above). -/
+/-- The first direction on one argument at TREE level: invocation JSON → `convertToExp` → the tree
+function `reparse` → `MarshalJSON` gives the JSON value back (up to the normalisation above).  The
+statement with the real text in the middle – print the call, lex, parse – is
+`source_roundtrip_text` below. -/
 theorem source_roundtrip (t : TypeId) (j : J) (e : Exp) (h : convert t j = some e) :
     encode (reparse e) = normJ j := by
   rw [encode_reparse, encode_convert t j e h]
@@ -451,6 +455,98 @@ example : convert ⟨.struct innerT, 0, 0⟩ (encodeRef [0x41, 0x2E, 0x62])
 example : splitOperandOk ⟨.struct innerT, 0, 1⟩
     (.map false (.cons kK (.map false (.cons kA (.map true (.cons kA (.lit (.int 1)) .nil)) .nil)) .nil))
     = true := by decide
+
+/-! ## the text leg is the real formatter ∘ lexer ∘ parser (audit C16-H1 / H6)
+
+`Martian.FormatExp` / `Martian.FormatCall` (C09) are byte-exact models of `Exp.format` /
+`CallStm.format`, of the MRO tokenizer and of the `val_exp` / `call_stm` grammar, tied to the real
+FormatExp / ParseValExp / UncheckedParse / FormatSrcBytes on every run, with
+`parse_format_exp` / `parse_format_call` proved for them.  `InvocationText.toF` / `ofF` translate
+between the invocation expressions and C09's expression type; `textLeg g e` =
+`(parseValExp (fmt [] (toF g e))).map (ofF g)` is print → lex → parse on BYTES.  The only thing not
+computed is strconv: the 'g' text of a float enters as the oracle `g`, and `floatsOk g e` states
+per float of `e` (decidably; evaluated by the driver on the real strconv output of every case) the
+two facts used – integer-syntax text exactly when `Flt.textAsInt`, else a NUM_FLOAT token that reads
+back as the same float64.  `wfText` / `wfCallText` = C09's well-formedness of what is printed
+(strings and keys valid UTF-8, keys ascending, struct keys and binding ids identifiers, integers in
+int64, a split operand a non-empty collection): what the formatter can print and the grammar
+accept back; `-0.0` fails `floatsOk` with the real strconv (known finding C16-N5). -/
+section TextLeg
+open Martian.InvocationText
+
+/-- EXPRESSION: printing with the formatter, lexing and parsing with `ParseValExp` returns exactly
+the tree `reparse e` – for every printable expression (nested structs, typed maps, arrays, strings
+with any escapes, big integers, floats) -/
+theorem text_leg_is_format_parse (g : G) (e : Exp) (hw : wfText g e = true) (hf : floatsOk g e = true) :
+    textLeg g e = some (reparse e) :=
+  text_leg_exp g e hw hf
+
+/-- CALL: `Ast.Format()` of the call `BuildCallAst` built, lexed and parsed as a `call_stm`, gives
+the same callable and the same bindings with every value `reparse`d and every split status kept -/
+theorem text_leg_call_is_format_parse (g : G) (name : Str) (bs : List (Str × Arg))
+    (hw : wfCallText g name bs = true) (hf : floatsOkBinds g bs = true) :
+    callTextLeg g name bs = some (name, bs.map fun b => (b.1, b.2.reparse)) :=
+  text_leg_call g name bs hw hf
+
+/-- marshalling the re-read bindings gives the data of the original bindings -/
+theorem dataOf_reparse (bs : List (Str × Arg)) :
+    dataOf (bs.map fun b => (b.1, b.2.reparse)) = dataOf bs := by
+  have harg : ∀ a : Arg, encodeArg a.reparse = encodeArg a ∧ a.reparse.isSplit = a.isSplit := by
+    intro a; cases a <;> simp [Arg.reparse, encodeArg, Arg.isSplit, encode_reparse]
+  induction bs with
+  | nil => rfl
+  | cons b r ih =>
+    have hb := harg b.2
+    simp only [List.map_cons]
+    rw [dataOf_cons, dataOf_cons, ih, hb.1, hb.2]
+
+/-- SOURCE ROUND TRIP OVER THE REAL TEXT (replaces the postulated text leg): invocation data →
+`BuildCallAst` (`buildCall`) → `Ast.Format()` BYTES (`printCall`) → tokenizer → `call_stm` parser →
+`BuildDataForAst` (`dataOf`) returns the callable and the canonical form of the data – every
+declared parameter present, values preserved up to float normalisation, `splitargs` preserved –
+for every signature and all data whose call is printable (`wfCallText`, e.g. no split over an empty
+collection: findings C16-N3a/b) with strconv behaving as `floatsOkBinds` says. -/
+theorem source_roundtrip_text (g : G) (name : Str) (sig : Sig) (d : Data) (bs : List (Str × Arg))
+    (h : buildCall sig d = some bs) (hw : wfCallText g name bs = true) (hf : floatsOkBinds g bs = true) :
+    (callTextLeg g name bs).map (fun p => (p.1, dataOf p.2)) = some (name, canonData sig d) := by
+  rw [text_leg_call g name bs hw hf]
+  simp only [Option.map_some, dataOf_reparse, call_roundtrip sig d bs h]
+
+/-- second round: the regenerated text is a fixed point (printing what was read back prints the
+same bytes) -/
+theorem text_fixed_point (g : G) (name : Str) (bs : List (Str × Arg)) (hw : wfCallText g name bs = true) :
+    Martian.FormatCall.fmtCall (Martian.FormatCall.normCall (toFCall g name bs)) = printCall g name bs :=
+  Martian.FormatCall.fmtCall_norm (toFCall g name bs) hw
+
+/-! non-vacuity: a struct of a struct, a typed map of structs, a two-dimensional array, a float, a
+string needing escapes, keys in sorted order; strconv oracle for the one float: `2.5` -/
+private def gEx : G :=
+  { text := fun f => if f = ⟨false, 5, -1⟩ then [0x32, 0x2E, 0x35] else [0x30],
+    val := fun _ => ⟨false, 5, -1⟩ }
+private def tV : Exp :=
+  .map true (.cons kGrid (.arr (.cons (.arr (.cons (.lit (.int 1)) (.cons (.lit .null) .nil)))
+        (.cons (.arr .nil) .nil)))
+    (.cons kInner (.map true (.cons kA (.lit (.int 1)) .nil))
+    (.cons kM (.map false (.cons kAB
+        (.map true (.cons kA (.lit (.flt ⟨false, 5, -1⟩)) .nil)) .nil))
+    (.cons kName (.lit (.str [0x6E, 0x22, 0xC3, 0xA9])) .nil))))
+example : wfText gEx tV = true ∧ floatsOk gEx tV = true := by decide +kernel
+/-- … and on it the bytes are really printed and read back -/
+example : textLeg gEx tV = some (reparse tV) ∧ (textLeg gEx tV).isSome = true :=
+  ⟨text_leg_is_format_parse gEx tV (by decide +kernel) (by decide +kernel), by decide +kernel⟩
+/-- a split call over that value and a scalar: `map call ST(x = split [1], y = {…},)` -/
+example : wfCallText gEx [0x53, 0x54] [(kX, .split (.arr (.cons (.lit (.int 1)) .nil))), (kY, .plain tV)] = true
+    ∧ floatsOkBinds gEx [(kX, .split (.arr (.cons (.lit (.int 1)) .nil))), (kY, .plain tV)] = true := by
+  decide +kernel
+/-- the empty struct literal is where the old definition of `reparse` was wrong: `{}` reads back as a map -/
+example : textLeg gEx (.map true .nil) = some (.map false .nil) :=
+  text_leg_is_format_parse gEx (.map true .nil) (by decide +kernel) (by decide +kernel)
+/-- `-0.0`: with the real strconv text `-0` the hypothesis `floatsOk` fails (finding C16-N5) -/
+example : floatsOk { text := fun _ => [0x2D, 0x30], val := fun _ => ⟨true, 0, 0⟩ } (.lit (.flt ⟨true, 0, 0⟩)) = true
+    ∧ wfText { text := fun _ => [0x2D, 0x30], val := fun _ => ⟨true, 0, 0⟩ } (.lit (.flt ⟨true, 0, 0⟩)) = false := by
+  decide +kernel
+
+end TextLeg
 
 /-! ## the string leaf at byte level
 
